@@ -113,6 +113,8 @@ class RepeatingEventBase(EventBase):
             }
             if kwargs['version'] == 0:
                 time_delta = presentation_time - seg_start
+                if time_delta > 0xFFFFFFFF:
+                    raise ValueError('presentation_time_delta does not fit a version 0 emsg box')
                 kwargs['presentation_time_delta'] = time_delta
             else:
                 kwargs['presentation_time'] = presentation_time
